@@ -344,6 +344,7 @@ P("C09",
   bounds="names <= 2 (quick) / 3 (thorough) characters for the order; 31-unit names for the codec",
   outside="Unicode outside SIGMA; names longer than the bounds for the order relation")
 P("C17", smt=["timestamp"],
+  technique="SMT over the nightly MIR of the real timestamp functions (bit-vector encoding regenerated per run; cvc5 --solve-bv-as-int=sum decides, z3 cross-checks, models replayed natively) plus bounded model checking of the compiled directory-entry/header/setter code (Kani/CBMC, SAT)",
   level_text="FILETIME conversion decided for ALL u64 timestamps and ALL (i64 secs, nanos<1e9) system times by SMT over the MIR of the real functions (round trip, floor toward the Unix epoch at 100 ns, saturation, no panic); directory-entry codec round trip for all field values by Kani.",
   level_note="std::time calls are summarised by their documented contract on the Unix (i64, u32) representation (listed in evidence.assumptions); other platforms' SystemTime ranges are outside.",
   bounds="timestamps: full width (no bound); entries: all field values, concrete names",
